@@ -57,13 +57,17 @@ func classify(it *item, q qnode, par any, l, r res, lc, rc []string) (sig, why s
 		}
 
 	case vt == "null" && it.isDV && len(lc) == 0 && (l.err || q.text == ".[$i]?") && rOK &&
-		inSet(q.text, ".[$i]", ".[$i]?", ".[$a:$b]", "first", "last", "nth(1)", "getpath([$i])", "has($i)", "has($k)", "isnan"):
-		return "null-decode-value-errors-where-null-gives-a-result", "null is indexable/sliceable (gives null), has() gives false, isnan false"
+		inSet(q.text, "isnan"):
+		return "null-decode-value-isnan-is-an-error", "isnan of null is false for the JSON null; the gojq fork's isnan converts a JQValue with tonumber, which is an error for null"
+
+	case vt == "null" && it.isDV && len(lc) == 0 && (l.err || q.text == ".[$i]?") && rOK &&
+		inSet(q.text, ".[$i]", ".[$i]?", ".[$a:$b]", "first", "last", "nth(1)", "getpath([$i])", "has($i)", "has($k)"):
+		return "null-decode-value-errors-where-null-gives-a-result", "null is indexable/sliceable (gives null), has() gives false"
 
 	case vt == "null" && it.isDV && lErr && rOK && inSet(q.text, `. as $x | "abcdef" | .[$x:]`, `. as $x | [1,[2]] | tojson | .[$x:]`, `. as $x | [10,20,30] | .[$x:]`, `. as $x | [10,20,30] | .[:$x]`):
 		return "null-decode-value-as-slice-bound-is-an-error", "a null slice bound means open ended"
 
-	case vt == "number" && canon(it.rhs, cmode{}) == "-9223372036854775808" && inSet(q.text, "-(.)", ". * $p", "$p * .", ". / $p") && lOK && rOK && lc[0] == "9223372036854775808" && rc[0] == "-9223372036854775808":
+	case vt == "number" && canon(it.rhs, cmode{}) == "-9223372036854775808" && inSet(q.text, "-(.)", ". * $p", "$p * .", ". / $p", "length") && lOK && rOK && lc[0] == "9223372036854775808" && rc[0] == "-9223372036854775808":
 		return "min-int64-negation-wraps-on-the-json-number", "negating the smallest 64 bit integer: the decode value (big integer) gives 2^63, the JSON value (machine integer) wraps around"
 
 	case q.text == `. as $x | [1,"a",null,"sym",5,[1]] | index($x)` && vt == "array" && it.isDV && lOK && rOK && lc[0] == "null" && rc[0] != "null":
